@@ -10,6 +10,81 @@ import Apko.Model.Version
 namespace Apko.TransVersion
 open Apko
 
+/-- comparison of the common prefix of two number lists (the loop of `CompareVersions`) -/
+def prefixCmp : List Nat → List Nat → Ordering
+  | [], _ => .eq
+  | _ :: _, [] => .eq
+  | x :: xs, y :: ys => (compare x y).then (prefixCmp xs ys)
+
+theorem compare_succ (n m : Nat) : compare (n + 1) (m + 1) = compare n m := by
+  rcases Nat.lt_trichotomy n m with h | h | h
+  · rw [Nat.compare_eq_lt.mpr h, Nat.compare_eq_lt.mpr (by omega)]
+  · subst h; simp
+  · rw [Nat.compare_eq_gt.mpr h, Nat.compare_eq_gt.mpr (by omega)]
+
+theorem cmpNums_eq (a r : List Nat) : cmpNums a r = (prefixCmp a r).then (compare a.length r.length) := by
+  induction a generalizing r with
+  | nil =>
+    cases r with
+    | nil => simp [cmpNums, prefixCmp]
+    | cons y ys => simp [cmpNums, prefixCmp, (Nat.compare_eq_lt (a := 0) (b := ys.length + 1)).mpr (by omega)]
+  | cons x xs ih =>
+    cases r with
+    | nil => simp [cmpNums, prefixCmp, (Nat.compare_eq_gt (a := xs.length + 1) (b := 0)).mpr (by omega)]
+    | cons y ys => simp only [cmpNums, prefixCmp, ih, List.length_cons, Ordering.then_assoc, compare_succ]
+
+theorem ordInt_then (x y : Nat) (o : Ordering) :
+    Trans.ordInt ((compare x y).then o) = if x > y then 1 else if x < y then -1 else Trans.ordInt o := by
+  rcases Nat.lt_trichotomy x y with h | h | h
+  · have : compare x y = .lt := Nat.compare_eq_lt.mpr h
+    have h2 : ¬ x > y := by omega
+    simp [this, h, h2, Trans.ordInt]
+  · subst h; simp [Trans.ordInt]
+  · have : compare x y = .gt := Nat.compare_eq_gt.mpr h
+    simp [this, h, Trans.ordInt]
+
+theorem ordInt_compare (x y : Nat) :
+    Trans.ordInt (compare x y) = if x > y then 1 else if x < y then -1 else 0 := by
+  have := ordInt_then x y .eq
+  simpa [Trans.ordInt] using this
+
+-- the counted loop of `CompareVersions` as the translator renders it
+theorem rangeLoop_eq_prefixCmp (a r : List Nat) :
+    (List.range (min a.length r.length)).findSome? (fun i =>
+        if decide (a.getD i default > r.getD i default) then some (1 : Int)
+        else if decide (a.getD i default < r.getD i default) then some (-1 : Int) else none)
+      = match prefixCmp a r with
+        | .eq => none
+        | o => some (Trans.ordInt o) := by
+  induction a generalizing r with
+  | nil => simp [prefixCmp]
+  | cons x xs ih =>
+    cases r with
+    | nil => simp [prefixCmp]
+    | cons y ys =>
+      rw [List.length_cons, List.length_cons, Nat.succ_min_succ, List.range_succ_eq_map, List.findSome?_cons]
+      simp only [List.getD_cons_zero, prefixCmp, List.findSome?_map]
+      rcases Nat.lt_trichotomy x y with h | h | h
+      · have hn : ¬ x > y := by omega
+        simp [h, hn, Nat.compare_eq_lt.mpr h, Trans.ordInt]
+      · subst h
+        have := ih ys
+        simpa [Function.comp_def] using this
+      · simp [h, Nat.compare_eq_gt.mpr h, Trans.ordInt]
+
+-- T `trans_compareVersions`: Go's `CompareVersions` (counted loop over the common prefix of the numbers, the
+-- length tests, the field chain with the None→Max rewrite of the pre-suffix), translated, is the model's
+-- `compareVersions` read as Go's -1 / 0 / +1 — the function C03's order theorems are about.
+theorem trans_compareVersions (a r : Version) :
+    Generated.Trans.compareVersionsGo a r = Trans.ordInt (compareVersions a r) := by
+  unfold Generated.Trans.compareVersionsGo compareVersions
+  rw [rangeLoop_eq_prefixCmp, cmpNums_eq]
+  cases hp : prefixCmp a.numbers r.numbers
+  · simp [Trans.ordInt]
+  · simp only [Ordering.eq_then, ordInt_then, ordInt_compare, preRank]
+    simp
+  · simp [Trans.ordInt]
+
 -- the counted loop of `includesVersion` (`for i := 0; i < len(required.numbers); i++`), as the translator
 -- renders it, is the prefix test of the model — when `actual` is at least as long (the guard before the loop)
 theorem rangeLoop_eq_numsPrefix (r a : List Nat) (h : r.length ≤ a.length) :
@@ -48,7 +123,7 @@ theorem trans_satisfies (v : Dep) (actual required : Version) :
     Generated.Trans.satisfies v actual required = v.satisfies actual required := by
   unfold Generated.Trans.satisfies
   cases v <;> cases h : compareVersions actual required <;>
-    simp [Dep.satisfies, Trans.compareVersionsInt, Trans.ordInt, trans_includesVersion, h]
+    simp [Dep.satisfies, trans_compareVersions, Trans.ordInt, trans_includesVersion, h]
 
 /-- the hypotheses-free statements are about non-trivial values: `1.2` includes `1`, `1.2 > 1` -/
 example : Generated.Trans.satisfies .tilde ⟨[1, 2], 0, 0, 0, 0, 0, 0⟩ ⟨[1], 0, 0, 0, 0, 0, 0⟩ = true ∧
